@@ -11,6 +11,10 @@ var checks = map[string]func(*core.Ctx) int{
 	"C02": core.CheckC02,
 	"C04": core.CheckC04,
 	"C05": core.CheckC05,
+	"C06": core.CheckC06,
+	"C07": core.CheckC07,
+	"C08": core.CheckC08,
+	"C10": core.CheckC10,
 }
 
 func main() {
